@@ -27,7 +27,7 @@ T = {
  "C19": ("exploration", "reference-model monitor: row-major enumeration (itertools) vs the array/view/iterator API on every shape in the bound, release and overflow-checked builds, call histories continued past exhaustion", "7/C19"),
 }
 NOTE = {
- "default": "Decides only the executions it produced: inputs from this project's generators within the stated bounds, on this machine's release (and overflow-checked) builds of the current tree. Trusted base: the Python oracles in vf/oracle (written from the statements, cross-checked against each other), the harness drivers, numpy/CPython arithmetic.",
+ "default": "Decides only the executions it produced: inputs from this project's generators within the stated bounds, on this machine's release and checked builds of the current tree (checked = integer overflow traps plus debug assertions in the sfs crates, which turn on the standard library's precondition checks of unsafe functions; a quarter of the binary's runs and the end-of-shard audit pass - a sample of harness requests answered again in other orders - use it), each shard on its own seeded subset of the CPUs. Trusted base: the Python oracles in vf/oracle (written from the statements, cross-checked against each other), the harness drivers, numpy/CPython arithmetic.",
 }
 checks, na = [], []
 for p in props:
